@@ -102,7 +102,7 @@ def error_ellipse(vcv):
     """
     z = sqrt((vcv[0, 0] - vcv[1, 1])**2 + 4 * vcv[0, 1]**2)
     a = sqrt(0.5 * (vcv[0, 0] + vcv[1, 1] + z))
-    b = sqrt(0.5 * (vcv[0, 0] + vcv[1, 1] - z))
+    b = sqrt(max(0.5 * (vcv[0, 0] + vcv[1, 1] - z), 0.0))
     orientation = 90 - degrees(0.5 * atan2((2 * vcv[0, 1]),
                                            (vcv[0, 0] - vcv[1, 1])))
 
